@@ -4,7 +4,7 @@
    codes and feature bits are the definitions regenerated from the source
    (the Gen files); the control flow is written by hand and tied to the code by the
    correspondence family "be". *)
-From VV Require Import Base.Bits Base.Rt Base.Val Gen.GenConsts Gen.GenLayout Gen.GenFns Gen.GenVrfd Model.Transport.
+From VV Require Import Base.Bits Base.Rt Base.Val Gen.GenConsts Gen.GenLayout Gen.GenFns Gen.GenVrfd Gen.GenBeAck Model.Transport.
 Open Scope string_scope.
 Open Scope list_scope.
 Open Scope N_scope.
@@ -42,8 +42,7 @@ Definition has (x bit : N) : bool := negb (N.land x bit =? 0).
 Definition update_reply_ack (s : be_state) : be_state :=
   {| be_virtio_features := be_virtio_features s; be_acked_virtio := be_acked_virtio s;
      be_acked_proto := be_acked_proto s;
-     be_reply_ack := has (be_virtio_features s) VhostUserVirtioFeatures_PROTOCOL_FEATURES
-                     && has (be_acked_proto s) VhostUserProtocolFeatures_REPLY_ACK |}.
+     be_reply_ack := ra_enabled (be_virtio_features s) (be_acked_proto s) |}.     (* update_reply_ack_flag, regenerated *)
 Definition set_vf (s : be_state) v := {| be_virtio_features := v; be_acked_virtio := be_acked_virtio s; be_acked_proto := be_acked_proto s; be_reply_ack := be_reply_ack s |}.
 Definition set_avf (s : be_state) v := {| be_virtio_features := be_virtio_features s; be_acked_virtio := v; be_acked_proto := be_acked_proto s; be_reply_ack := be_reply_ack s |}.
 Definition set_apf (s : be_state) v := {| be_virtio_features := be_virtio_features s; be_acked_virtio := be_acked_virtio s; be_acked_proto := v; be_reply_ack := be_reply_ack s |}.
@@ -89,9 +88,10 @@ Definition fail (e : verr) (dropped : list N) : be_out :=
 Definition ack (s : be_state) (h : VhostUserMsgHeader) (res : rresult unit) (call : val)
            (delivered dropped : list N) : be_out :=
   let sent :=
-    if be_reply_ack s && VhostUserMsgHeader_is_need_reply R h then
+    (* whether an acknowledgement is written and its value: send_ack_message, regenerated (Gen.GenBeAck) *)
+    if ack_written (be_reply_ack s) (VhostUserMsgHeader_is_need_reply R h) then
       match reply_hdr h (sizeof VhostUserU64_layout) 0 with
-      | ROk rh => [msg_of rh (u64_body (match res with ROk _ => 0 | RErr _ => 1 end)) []]
+      | ROk rh => [msg_of rh (u64_body (ack_value (match res with ROk _ => true | RErr _ => false end))) []]
       | RErr _ => []
       end
     else [] in
